@@ -66,6 +66,7 @@ theorem opLock_dbt (db : DB) (h : DBT db) (c : Cmd) (data : Option Bytes) : DBT 
   have ho := others_of_fr (others_lockBase h.tight c (classifyLock db c data)) (applyLock_fr db c data _)
   have t := applyLock_tight db h.dbi h.tight c data (classifyLock db c data) (fun x hx => classifyLock_holder db c data x hx)
     (fun x hx => classifyLock_relock db c data x hx) (fun hx => classifyLock_uwr db c data hx)
+    (fun x hx => classifyLock_update_depth db c data x hx (cur_getKey h.tight c.key))
   exact commit_tight hs ho t.toKeyTight
 
 theorem opUnlock_dbt (db : DB) (h : DBT db) (c : Cmd) (data : Option Bytes) : DBT (opUnlock db c data).1 := by
